@@ -137,9 +137,9 @@ theorem C08_agrees (rc : Bytes → Option Bytes) (rf : Frame → List Frame) (t 
       cases exc with
       | some e =>
         simp only [traceLines, segLines, excLines, remapTyped, remapSeg, Option.map_some,
-          List.singleton_append, List.map_append, List.flatten_append, joinLines_append,
-          joinLines_cons, renderFirst_throwable rc rf e (hwf.1 e rfl),
-          renderRest_frames rc rf fs hwf.2, hcs]
+          List.cons_append, List.nil_append]
+        rw [List.map_append, List.flatten_append, renderRest_frames rc rf fs hwf.2, hcs,
+          renderFirst_throwable rc rf e (hwf.1 e rfl), joinLines_cons, joinLines_append]
         simp
       | none =>
         cases fs with
